@@ -135,6 +135,8 @@ func CommentState(l *lexer) stateFn {
 		}
 	} else {
 		//start with /*
+		l.next() // the opener itself is not part of the text searched
+		l.next() // for the closing */ (`/*/` does not close the comment)
 		for {
 			r := l.next()
 			if r == '*' {
